@@ -140,10 +140,15 @@ impl wire::Decode for NodeAnnouncement {
         let alias = wire::Decode::decode(reader)?;
         let addresses = BoundedVec::<Address, ADDRESS_LIMIT>::decode(reader)?;
         let nonce = u64::decode(reader)?;
-        let agent = match UserAgent::decode(reader) {
-            Ok(ua) => ua,
-            Err(e) if e.is_eof() => UserAgent::default(),
-            Err(e) => return Err(e),
+        // The user agent is optional: it is absent from announcements created by
+        // older nodes. However, it is only absent if the announcement ends right here.
+        // Running out of data *within* the user agent means that the announcement
+        // is truncated, which is an error like anywhere else.
+        let mut first = [0u8; 1];
+        let agent = match reader.read_exact(&mut first) {
+            Ok(()) => UserAgent::decode(&mut io::Read::chain(&first[..], &mut *reader))?,
+            Err(e) if e.kind() == io::ErrorKind::UnexpectedEof => UserAgent::default(),
+            Err(e) => return Err(e.into()),
         };
 
         Ok(Self {
@@ -684,6 +689,38 @@ mod tests {
         let ann = message.signed(&signer);
 
         assert!(ann.verify());
+    }
+
+    #[test]
+    fn test_node_announcement_user_agent() {
+        let ann = NodeAnnouncement {
+            version: 1,
+            features: node::Features::SEED,
+            timestamp: Timestamp::try_from(42491841u64).unwrap(),
+            alias: Alias::new("alice"),
+            addresses: BoundedVec::new(),
+            nonce: 0,
+            agent: UserAgent::from_str("/heartwood:1.0.0/").unwrap(),
+        };
+        let bytes = wire::serialize(&ann);
+        let agent = wire::serialize(&ann.agent);
+        let (without, _) = bytes.split_at(bytes.len() - agent.len());
+
+        assert_eq!(wire::deserialize::<NodeAnnouncement>(&bytes).unwrap(), ann);
+        // Without a user agent, we get the default one.
+        assert_eq!(
+            wire::deserialize::<NodeAnnouncement>(without).unwrap(),
+            NodeAnnouncement {
+                agent: UserAgent::default(),
+                ..ann
+            }
+        );
+        // But a truncated user agent is an error.
+        for len in without.len() + 1..bytes.len() {
+            assert!(wire::deserialize::<NodeAnnouncement>(&bytes[..len])
+                .unwrap_err()
+                .is_eof());
+        }
     }
 
     #[test]
